@@ -2,6 +2,6 @@ CONSTANTS
  MaxLen = 4
  NStamps = 2
  Leaky = FALSE
- Depth = 2
+ Depth = 6
 INIT InitObj
 NEXT GenNext
